@@ -2,6 +2,7 @@ package sim
 
 import (
 	"fmt"
+	distrtypes "github.com/cosmos/cosmos-sdk/x/distribution/types"
 	"time"
 
 	"github.com/cosmos/cosmos-sdk/crypto/keys/ed25519"
@@ -44,6 +45,14 @@ func StakingProfile(seed int64, out *Recorder, nOps int) *Chain {
 	}
 	amounts := []int64{1, 999999, 1000000, 1000001, 4000000, 6500000, 500000000, 1000000000, 2500000000}
 	for i := 0; i < nOps && c.Halted == ""; i++ {
+		// somebody funds the community pool, now and then with more than is bonded: the mint module splits every block's
+		// provision by ratios of such amounts (own random stream)
+		if r2 := newRng(seed*139 + int64(i)); r2.Intn(50) == 0 {
+			from := r2.Intn(cfg.NAcc)
+			amt := []int64{1000000, 3000000000, 20000000000, 100000000000}[r2.Intn(4)]
+			c.Do(from, []D{{"t": "distr.fundCommunityPool", "from": Hex(c.Accts[from].Addr), "amt": amt}},
+				distrtypes.NewMsgFundCommunityPool(c.Coins(amt, Bond), c.Accts[from].Addr))
+		}
 		ctx := c.Ctx()
 		vals := sk.GetAllValidators(ctx)
 		who := rng.Intn(cfg.NAcc)
